@@ -164,4 +164,35 @@ mod vk_foreach {
     #[kani::proof]
     #[kani::should_panic]
     fn chunk_zero_panics_buffered() { let data = [1u8, 2, 3]; let it = ConIterOfSlice::new(&data[..]); let _ = it.buffered_iter(0); }
+
+    // ... for the buffered puller of every source kind (each kind has its own buffer type and constructor)
+    // @harness name=chunk_zero_panics_buffered_vec group=default,nodebug props_nodebug=C17 props=C16 kind=complete expect=panic
+    #[kani::proof]
+    #[kani::should_panic]
+    fn chunk_zero_panics_buffered_vec() { let it = crate::ConIterOfVec::new(vec![1u8, 2, 3]); let _ = it.buffered_iter(0); std::mem::forget(it); }
+
+    // @harness name=chunk_zero_panics_buffered_array group=default,nodebug props_nodebug=C17 props=C16 kind=complete expect=panic
+    #[kani::proof]
+    #[kani::should_panic]
+    fn chunk_zero_panics_buffered_array() { let it = crate::ConIterOfArray::new([1u8, 2, 3]); let _ = it.buffered_iter(0); std::mem::forget(it); }
+
+    // @harness name=chunk_zero_panics_buffered_range group=default,nodebug props_nodebug=C17 props=C16 kind=complete expect=panic
+    #[kani::proof]
+    #[kani::should_panic]
+    fn chunk_zero_panics_buffered_range() { let it = ConIterOfRange::new(0usize..3); let _ = it.buffered_iter(0); }
+
+    // @harness name=chunk_zero_panics_buffered_iter group=default,nodebug props_nodebug=C17 props=C16 kind=complete expect=panic
+    #[kani::proof]
+    #[kani::should_panic]
+    fn chunk_zero_panics_buffered_iter() { let it = crate::ConIterOfIter::new([1u8, 2, 3].into_iter()); let _ = it.buffered_iter(0); }
+
+    // @harness name=chunk_zero_panics_buffered_cloned group=default,nodebug props_nodebug=C17 props=C16 kind=complete expect=panic
+    #[kani::proof]
+    #[kani::should_panic]
+    fn chunk_zero_panics_buffered_cloned() { use crate::IntoCloned; let data = [1u8, 2, 3]; let it = ConIterOfSlice::new(&data[..]).cloned(); let _ = it.buffered_iter(0); }
+
+    // @harness name=chunk_zero_panics_buffered_copied_iter group=default,nodebug props_nodebug=C17 props=C16 kind=complete expect=panic
+    #[kani::proof]
+    #[kani::should_panic]
+    fn chunk_zero_panics_buffered_copied_iter() { use crate::IntoCopied; let data = [1u8, 2, 3]; let it = crate::ConIterOfIter::new(data.iter()).copied(); let _ = it.buffered_iter(0); }
 }
